@@ -35,6 +35,12 @@ func init() {
 }
 
 func runC02(c *Ctx) {
+	// every edge barrier of this property also recognises its guard through negations and named booleans (c02Deep)
+	OnTrue := func(name string, p Pat) Barrier { return c02Deep(OnTrue(name, p)) }
+	OnFalse := func(name string, p Pat) Barrier { return c02Deep(OnFalse(name, p)) }
+	OnCmp := func(name string, lhs Pat, op token.Token, rhs Pat, holds bool) Barrier {
+		return c02Deep(OnCmp(name, lhs, op, rhs, holds))
+	}
 	const (
 		cpkg = "middleware/cache"
 		rpkg = "middleware/resolver"
@@ -157,7 +163,7 @@ func runC02(c *Ctx) {
 		bars = append(bars,
 			OnTrue("ReplaceIfCurrent", CallTo(fo("C02-R2", cpkg+".(*Store).ReplaceIfCurrent"))),
 			OnFalse("req.Entry.scoped()", CallTo(fo("C02-R2", cpkg+".(*CacheEntry).scoped"))),
-			OnFalse("requestCD (req.Request != nil && req.Request.CheckingDisabled)", c02AndPhi(reqCD)),
+			c02Either("requestCD (req.Request != nil && req.Request.CheckingDisabled)=false", OnFalse("", c02AndPhi(reqCD)), OnFalse("", reqCD)),
 			OnFalse("req.RequestHadECS", FieldIs(pr("RequestHadECS"))),
 			OnFalse("hasEDNSClientSubnet(req.Request)", CallTo(fo("C02-R2", cpkg+".hasEDNSClientSubnet"))),
 			OnFalse("resp.CheckingDisabled", respCD))
@@ -210,17 +216,15 @@ func runC02(c *Ctx) {
 			if TopLevel(s.Fn) != authFn {
 				continue
 			}
-			terms, others := c02PhiConstPreds(s.Val, true)
-			key := "C02-R3|" + fnKey(authFn) + "|Aggressive value"
-			if len(others) > 0 {
-				c.violation("C02-R3", key, instrPos(s.Instr), "Aggressive is assigned a value that is not a boolean constant merged over the control flow: "+trunc(Desc(others[0]).String(), 160))
-				continue
-			}
-			if len(terms) == 0 {
+			// every way the flag can become true: a constant true merged in over an edge, or a
+			// boolean operand assigned directly (`eligible = err == nil && rcode == …`), which
+			// makes the flag true exactly when the operand holds
+			srcs := c02TrueSources(s.Val)
+			if len(srcs) == 0 {
 				c.unresolved("C02-R3", "authority|Aggressive value", "no path assigns true (rule would pass vacuously)")
 				continue
 			}
-			for _, t := range terms {
+			for _, src := range srcs {
 				for _, bs := range [][]Barrier{
 					{OnFalse("EvaluateAggressiveNSEC3 err", ResultOf(1, evalNSEC3)), OnFalse("EvaluateAggressiveNSEC err", ResultOf(1, evalNSEC))},
 					{OnCmp("result.Rcode == resp.Rcode", FieldIs(resRcode), token.EQL, FieldIs(fRcode), true)},
@@ -230,10 +234,26 @@ func runC02(c *Ctx) {
 						names = append(names, b.Name)
 					}
 					k := "C02-R3|" + fnKey(authFn) + "|aggressiveEligible=true|" + strings.Join(names, ",")
-					if ug, tr := c.unguarded(t, bs, authFn); ug {
-						c.violation("C02-R3", k, instrPos(t), "aggressiveEligible becomes true without crossing {"+strings.Join(names, " | ")+"}; path "+tr)
+					if src.Residual != nil {
+						implied := false
+						for _, b := range bs {
+							if m, which := b.Edge(Desc(src.Residual)); m && which == 0 {
+								implied = true
+							}
+						}
+						if implied {
+							c.ok("C02-R3", k, instrPos(src.Term), "aggressiveEligible is assigned the guard itself {"+strings.Join(names, " | ")+"}")
+							continue
+						}
+					}
+					if src.Term == nil {
+						c.violation("C02-R3", k, instrPos(s.Instr), "Aggressive is assigned "+trunc(Desc(src.Residual).String(), 120)+", which does not imply {"+strings.Join(names, " | ")+"}")
+						continue
+					}
+					if ug, tr := c.unguarded(src.Term, bs, authFn); ug {
+						c.violation("C02-R3", k, instrPos(src.Term), "aggressiveEligible becomes true without crossing {"+strings.Join(names, " | ")+"}; path "+tr)
 					} else {
-						c.ok("C02-R3", k, instrPos(t), "aggressiveEligible = true only behind {"+strings.Join(names, " | ")+"}")
+						c.ok("C02-R3", k, instrPos(src.Term), "aggressiveEligible = true only behind {"+strings.Join(names, " | ")+"}")
 					}
 				}
 			}
@@ -327,7 +347,7 @@ func runC02(c *Ctx) {
 				continue
 			}
 			var bad []string
-			for _, l := range Origins(Desc(callArg(s.Instr, sp.recs)), nil) {
+			for _, l := range c02OriginsThroughHelpers(Desc(callArg(s.Instr, sp.recs)), CallTo(filter, extract), 0) {
 				ls := strip(l)
 				if !CallTo(filter)(ls) || len(ls.Args) != 2 {
 					bad = append(bad, "not a FilterRRsToZone result: "+trunc(l.String(), 120))
@@ -616,9 +636,20 @@ func runC02(c *Ctx) {
 			OnFalse("sharedDenialBypass(ctx)", CallTo(bypass)))
 	}
 	if fn := c.fn("C02-R7", cpkg+".(*Store).GetWithContext"); fn != nil {
-		tree := c02OrPhi(FieldIs(fCD), CallTo(hasECS), CallTo(fo("C02-R7", mpkg+".HasClientECS")), CallTo(bypass))
-		c.MustCross("C02-R7", fn, "shared denial lookup", isPlainCallTo(lookCut, lookDP),
-			OnFalse("requestTreeBypassesDenial (CD || raw ECS || client ECS || tree bypass)", tree))
+		// the four bypass atoms, whether tested inline or first folded into a named boolean
+		// (an || phi): each atom's false edge, or the false edge of an || value it is part of
+		for _, at := range []struct {
+			name string
+			p    Pat
+		}{
+			{"req.CheckingDisabled", FieldIs(fCD)},
+			{"hasEDNSClientSubnet(req)", CallTo(hasECS)},
+			{"middleware.HasClientECS(ctx)", CallTo(fo("C02-R7", mpkg+".HasClientECS"))},
+			{"sharedDenialBypass(ctx)", CallTo(bypass)},
+		} {
+			c.MustCross("C02-R7", fn, "shared denial lookup", isPlainCallTo(lookCut, lookDP),
+				c02Either(at.name+"=false", OnFalse("", at.p), OnFalse("", c02OrPhi(at.p))))
+		}
 	}
 	if fn := c.fn("C02-R7", cpkg+".(*Cache).serveCompositeFromWire"); fn != nil {
 		c.MustCross("C02-R7", fn, "Store.LookupNXDomainCutWire", isPlainCallTo(lookCutWire), OnFalse("req.CD()", MethodNamed("CD")))
@@ -703,6 +734,12 @@ func c02PhiCondAtoms(e *Expr) []*Expr {
 // ---------------------------------------------------------------------- R8
 
 func runC02R8(c *Ctx) {
+	// every edge barrier of this property also recognises its guard through negations and named booleans (c02Deep)
+	OnTrue := func(name string, p Pat) Barrier { return c02Deep(OnTrue(name, p)) }
+	OnFalse := func(name string, p Pat) Barrier { return c02Deep(OnFalse(name, p)) }
+	OnCmp := func(name string, lhs Pat, op token.Token, rhs Pat, holds bool) Barrier {
+		return c02Deep(OnCmp(name, lhs, op, rhs, holds))
+	}
 	const (
 		dpkg = "middleware/resolver/dnssec"
 		lib  = "github.com/miekg/dns"
@@ -713,26 +750,74 @@ func runC02R8(c *Ctx) {
 	if typesSet == nil || qtype == nil {
 		return
 	}
-	// ts(qt, consts…): a typesSet call whose type list is exactly consts (+ the query type when qt)
-	ts := func(qt Pat, consts ...int64) Pat {
+	// A bitmap test typesSet(bitmap, L…) is read by what its edges establish, not by
+	// how the type list is spelled or split over calls:
+	//   false edge ⇒ no type of L is present   → has(T) matches any call whose list contains T
+	//   true edge  ⇒ some type of L is present → only(T…) matches a call whose list ⊆ {T…}
+	// so `typesSet(b, q, CNAME)`, `typesSet(b, q) || typesSet(b, CNAME)` and a list
+	// hardened with a further type all satisfy "accept only if neither q nor CNAME
+	// is present", while dropping a type from the list does not.
+	tsList := func(e *Expr) (consts []int64, others []*Expr, ok bool) {
+		if !CallTo(typesSet)(e) {
+			return nil, nil, false
+		}
+		e = strip(e)
+		if len(e.Args) != 2 {
+			return nil, nil, false
+		}
+		consts, others = c02PackMembersExpr(e.Args[1])
+		return consts, others, true
+	}
+	has := func(t int64) Pat {
 		return func(e *Expr) bool {
-			if !CallTo(typesSet)(e) {
+			cs, _, ok := tsList(e)
+			if !ok {
 				return false
 			}
-			e = strip(e)
-			if len(e.Args) != 2 {
-				return false
+			for _, x := range cs {
+				if x == t {
+					return true
+				}
 			}
-			cs, oth := c02PackMembersExpr(e.Args[1])
-			if !c02SameInts(cs, consts...) {
-				return false
-			}
-			if qt == nil {
-				return len(oth) == 0
-			}
-			return len(oth) == 1 && qt(oth[0])
+			return false
 		}
 	}
+	hasQ := func(q Pat) Pat {
+		return func(e *Expr) bool {
+			_, oth, ok := tsList(e)
+			if !ok {
+				return false
+			}
+			for _, o := range oth {
+				if q(o) {
+					return true
+				}
+			}
+			return false
+		}
+	}
+	only := func(ts ...int64) Pat {
+		return func(e *Expr) bool {
+			cs, oth, ok := tsList(e)
+			if !ok || len(oth) > 0 || len(cs) == 0 {
+				return false
+			}
+			for _, x := range cs {
+				in := false
+				for _, t := range ts {
+					if x == t {
+						in = true
+					}
+				}
+				if !in {
+					return false
+				}
+			}
+			return true
+		}
+	}
+	lacks := func(t int64, name string) Barrier { return OnFalse("bitmap lacks "+name, has(t)) }
+	lacksQ := func(q Pat) Barrier { return OnFalse("bitmap lacks qtype", hasQ(q)) }
 	isQ := FieldIs(qtype)
 	const (
 		tNS, tCNAME, tSOA, tDNAME, tDS = 2, 5, 6, 39, 43
@@ -746,9 +831,12 @@ func runC02R8(c *Ctx) {
 		if fn == nil {
 			continue
 		}
-		c.MustCrossAll("C02-R8", fn, "insecure delegation accepted", acceptNil,
-			OnTrue("typesSet(bitmap, NS)", ts(nil, tNS)),
-			OnFalse("typesSet(bitmap, DS, SOA)", ts(nil, tDS, tSOA)))
+		bars := []Barrier{OnTrue("bitmap has NS", only(tNS)), lacks(tDS, "DS"), lacks(tSOA, "SOA")}
+		if name == dpkg+".verifyDelegationTypes" {
+			c.c14MustCrossAcceptAll("C02-R8", fn, "insecure delegation accepted", 0, IsNilConst, nil, bars...)
+		} else {
+			c.MustCrossAll("C02-R8", fn, "insecure delegation accepted", acceptNil, bars...)
+		}
 	}
 	toLower := c.fobj("C02-R8", "strings.ToLower")
 	canon := c.fobj("C02-R8", lib+".CanonicalName")
@@ -762,8 +850,9 @@ func runC02R8(c *Ctx) {
 	}
 	// NODATA, NSEC: both arms
 	if fn := c.fn("C02-R8", dpkg+".VerifyNODATANSEC"); fn != nil {
-		c.MustCross("C02-R8", fn, "NODATA accepted", acceptNil, OnFalse("typesSet(bitmap, qtype, CNAME)", ts(isQ, tCNAME)))
-		c.MustCross("C02-R8", fn, "NODATA accepted", acceptNil, notDS, OnFalse("typesSet(bitmap, SOA)", ts(nil, tSOA)))
+		c.MustCross("C02-R8", fn, "NODATA accepted", acceptNil, lacksQ(isQ))
+		c.MustCross("C02-R8", fn, "NODATA accepted", acceptNil, lacks(tCNAME, "CNAME"))
+		c.MustCross("C02-R8", fn, "NODATA accepted", acceptNil, notDS, lacks(tSOA, "SOA"))
 		c.MustCross("C02-R8", fn, "NODATA accepted", acceptNil,
 			OnCmp("owner == qname", ownerOf(canon), token.EQL, CallTo(canon), true),
 			OnCmp("owner == *.closest-encloser", ownerOf(toLower), token.EQL, CallTo(toLower), true))
@@ -772,8 +861,9 @@ func runC02R8(c *Ctx) {
 			OnCmp("owner == qname", ownerOf(canon), token.EQL, CallTo(canon), true),
 			OnCmp("owner == *.closest-encloser", ownerOf(toLower), token.EQL, CallTo(toLower), true),
 		} {
-			c.AfterEdge("C02-R8", fn, "arm accepts without its own bitmap test", eq, acceptNil, OnFalse("typesSet(bitmap, qtype, CNAME)", ts(isQ, tCNAME)))
-			c.AfterEdge("C02-R8", fn, "arm accepts a DS NODATA from the child apex", eq, acceptNil, notDS, OnFalse("typesSet(bitmap, SOA)", ts(nil, tSOA)))
+			c.AfterEdge("C02-R8", fn, "arm accepts without its own bitmap test", eq, acceptNil, lacksQ(isQ))
+			c.AfterEdge("C02-R8", fn, "arm accepts without its own bitmap test", eq, acceptNil, lacks(tCNAME, "CNAME"))
+			c.AfterEdge("C02-R8", fn, "arm accepts a DS NODATA from the child apex", eq, acceptNil, notDS, lacks(tSOA, "SOA"))
 		}
 	}
 	// NODATA, NSEC3
@@ -793,9 +883,10 @@ func runC02R8(c *Ctx) {
 		optOutArm := func(in ssa.Instruction) bool {
 			return okRet(in) && IsConstBool(false)(Desc(in.(*ssa.Return).Results[0]))
 		}
-		c.MustCross("C02-R8", fn, "NSEC3 NODATA accepted (exact / wildcard arm)", bitmapArm, OnFalse("typesSet(types, qtype, CNAME)", ts(isQ, tCNAME)))
+		c.MustCross("C02-R8", fn, "NSEC3 NODATA accepted (exact / wildcard arm)", bitmapArm, lacksQ(isQ))
+		c.MustCross("C02-R8", fn, "NSEC3 NODATA accepted (exact / wildcard arm)", bitmapArm, lacks(tCNAME, "CNAME"))
 		c.MustCross("C02-R8", fn, "NSEC3 NODATA accepted (exact / wildcard arm)", bitmapArm, OnFalse("findMatchingWithWork err", ResultOf(1, matching)))
-		c.MustCross("C02-R8", fn, "NSEC3 NODATA accepted (exact / wildcard arm)", bitmapArm, notDS, OnFalse("typesSet(types, SOA)", ts(nil, tSOA)))
+		c.MustCross("C02-R8", fn, "NSEC3 NODATA accepted (exact / wildcard arm)", bitmapArm, notDS, lacks(tSOA, "SOA"))
 		c.MustCrossAll("C02-R8", fn, "NSEC3 DS NODATA accepted on a cover", optOutArm,
 			OnTrue("optOut", ResultOf(1, coverer)),
 			OnCmp("q.Qtype == DS", isQ, token.EQL, IsConstInt(tDS), true),
@@ -815,8 +906,8 @@ func runC02R8(c *Ctx) {
 	}
 	// closest encloser: not below a DNAME or a delegation
 	if fn := c.fn("C02-R8", dpkg+".validateNSEC3ClosestEncloser"); fn != nil {
-		c.MustCross("C02-R8", fn, "closest encloser accepted", acceptNil, OnFalse("typesSet(types, DNAME)", ts(nil, tDNAME)))
-		c.MustCross("C02-R8", fn, "closest encloser accepted", acceptNil, OnFalse("typesSet(types, NS)", ts(nil, tNS)), OnTrue("typesSet(types, SOA)", ts(nil, tSOA)))
+		c.c14MustCrossAccept("C02-R8", fn, "closest encloser accepted", 0, IsNilConst, nil, lacks(tDNAME, "DNAME"))
+		c.c14MustCrossAccept("C02-R8", fn, "closest encloser accepted", 0, IsNilConst, nil, lacks(tNS, "NS"), OnTrue("bitmap has SOA", only(tSOA)))
 	}
 	// every NSEC3 verdict that used the closest-encloser route validated it, and no incomplete step accepts
 	for _, name := range []string{dpkg + ".verifyNameErrorWithRing", dpkg + ".VerifyNODATAForZoneWithWork", dpkg + ".VerifyDelegationForZoneWithWork"} {
@@ -927,10 +1018,11 @@ func runC02R8(c *Ctx) {
 	if fn := c.fn("C02-R8", dpkg+".validateAggressiveExactNODATA"); fn != nil {
 		qp := c14ParamIdx(0)
 		deleg := c.fobj("C02-R8", dpkg+".aggressiveDelegationBitmap")
-		c.MustCross("C02-R8", fn, "aggressive NODATA accepted", acceptNil, OnFalse("typesSet(bitmap, qtype, CNAME)", ts(qp, tCNAME)))
-		c.MustCross("C02-R8", fn, "aggressive NODATA accepted", acceptNil, OnCmp("qtype != DS", qp, token.NEQ, IsConstInt(tDS), true), OnFalse("typesSet(bitmap, SOA)", ts(nil, tSOA)))
-		c.MustCross("C02-R8", fn, "aggressive NODATA accepted", acceptNil, OnCmp("qtype == DS", qp, token.EQL, IsConstInt(tDS), true), OnFalse("aggressiveDelegationBitmap", CallTo(deleg)))
+		c.c14MustCrossAccept("C02-R8", fn, "aggressive NODATA accepted", 0, IsNilConst, nil, lacksQ(qp))
+		c.c14MustCrossAccept("C02-R8", fn, "aggressive NODATA accepted", 0, IsNilConst, nil, lacks(tCNAME, "CNAME"))
+		c.c14MustCrossAccept("C02-R8", fn, "aggressive NODATA accepted", 0, IsNilConst, nil, OnCmp("qtype != DS", qp, token.NEQ, IsConstInt(tDS), true), lacks(tSOA, "SOA"))
+		c.c14MustCrossAccept("C02-R8", fn, "aggressive NODATA accepted", 0, IsNilConst, nil, OnCmp("qtype == DS", qp, token.EQL, IsConstInt(tDS), true), OnFalse("aggressiveDelegationBitmap", CallTo(deleg)))
 	}
 	var _ = sort.Strings
-	c.Floor("C02-R8", 55)
+	c.Floor("C02-R8", 60)
 }
